@@ -22,6 +22,10 @@ RULE = (
     "structures x 6 force fields (+ user pairs through --userff/--usernames): every written atom's "
     "charge/radius == model value for the residue's final state; atoms without entry omitted and "
     "reported; non-trivial = written atoms cover a terminal or non-default protonation state."
+    " ligand: --ligand complexes (C16's generator, always with a foreign hetero group): "
+    "protein/water atoms keep the force field's values, an atom known to neither force field nor "
+    'MOL2 is never written.  table also checks the pinned residue/atom naming map (one direction).  '
+    'e2e includes hidden chain ends and strands whose nucleotide states follow from the descriptor.'
 )
 ASSUMPTIONS = [
     "the DAT/.names data files define the parameters (read independently of pdb2pqr)",
